@@ -210,6 +210,10 @@ def build_world(world, config, groups, thorough=True, stacks=None, quiet=False):
             if o.id in selids and i.id in selids:
                 tus.append(TU('%s.wrap.%s' % (o.id, i.id), os.path.join(gen, '%s.wrap.%s.cpp' % (o.id, i.id)), pool_flags,
                               'pool', o.id, 'wrap', i.id))
+    if world == 'golden':
+        # integer-storage readers of the golden files: optional, like a pool TU (a compile failure is a result)
+        tus.append(TU('golden_int.twins', os.path.join(VERIF, 'sim', 'worlds', 'golden_int.cpp'), pool_flags, 'pool',
+                      'golden_int', 'twins'))
     # harness objects (never thread-instrumented)
     hflags = cflags + inc + ['-DSIM_HAVE_CUDA_SHIM'] + cuda_includes()
     sim = os.path.join(VERIF, 'sim')
